@@ -152,6 +152,11 @@ inductive SessRes where
 
 def sessionId (n : Nat) : String := "s" ++ toString n
 
+/-- `validPassword` (samlidp/user.go, fix 791b1c9): the passwords bcrypt tells apart — at most 72 bytes, no NUL.
+    On these the idealisation "the stored hash is the password" is what bcrypt does; the others are refused at PUT and at login. -/
+def validPw (p : String) : Bool :=
+  decide ((p.toList.map (fun c => c.utf8Size)).sum ≤ 72) && !p.toList.contains (Char.ofNat 0)
+
 /-- `allowCred`: the handler parsed the POST form (login, sso); the shortcut handler does not -/
 def getSession (s : State) (fs : List Fault) (cred : Cred) (cookie : Option String) (allowCred : Bool) :
     State × List Fault × SessRes :=
@@ -163,7 +168,7 @@ def getSession (s : State) (fs : List Fault) (cred : Cred) (cookie : Option Stri
     let (f1, fs1) := nextFault fs
     (match storeGet f1 s.store.users u with
      | .found usr =>
-       if usr.hash = some p then
+       if validPw p = true ∧ usr.hash = some p then
          let id := sessionId s.nextRand
          let σ : SessionRec := ⟨u, usr.profile, s.now + sessionMaxAge⟩
          let (f2, fs2) := nextFault fs1
@@ -200,6 +205,7 @@ def step (s : State) (fs : List Fault) (req : Req) : State × Reply :=
   | .putUser name profile pw =>
     (match pw with
      | some p =>
+       if validPw p = false then (s, st 400) else
        let (f, _) := nextFault fs
        if f = .ok then ({ s with store := { s.store with users := s.store.users.put name ⟨some p, profile⟩ } }, st 204)
        else (s, st 500)
